@@ -135,3 +135,32 @@ package arraystack
 //@     invariant forall j :: iterator.index <= j && j < old(iterator.index) && 0 <= j ==> !f(j, Seq(iterator.stack)[j])
 //@     decreases iterator.index + 1
 
+// ---- JSON (C11 round trip, C12 replace / sound / atomic) ----
+
+//@ func Stack.ToJSON
+//@   requires Inv(stack)
+//@   modifies nothing
+//@   ensures [C11 C17 C18] result1 == nil && fresh(arr(result0)) && jarr_kind(result0, elemof(stack.list.elements)) == 3 && jarr_len(result0, elemof(stack.list.elements)) == len(arraylist.Seq(stack.list))
+//@     && (forall i :: 0 <= i && i < len(arraylist.Seq(stack.list)) ==> jarr_at(result0, i, elemof(stack.list.elements)) == arraylist.Seq(stack.list)[i])
+
+//@ func Stack.MarshalJSON
+//@   requires Inv(stack)
+//@   modifies nothing
+//@   ensures [C11 C17 C18] result1 == nil && fresh(arr(result0)) && jarr_kind(result0, elemof(stack.list.elements)) == 3 && jarr_len(result0, elemof(stack.list.elements)) == len(arraylist.Seq(stack.list))
+//@     && (forall i :: 0 <= i && i < len(arraylist.Seq(stack.list)) ==> jarr_at(result0, i, elemof(stack.list.elements)) == arraylist.Seq(stack.list)[i])
+
+//@ func Stack.FromJSON
+//@   requires Inv(stack)
+//@   modifies stack.list.elements, elems(stack.list.elements)
+//@   ensures [C12 C17] Inv(stack) && (result == nil <==> jarr_kind(data, elemof(stack.list.elements)) >= 2)
+//@   ensures [C12] atomic: result != nil ==> arraylist.Seq(stack.list) == old(arraylist.Seq(stack.list))
+//@   ensures [C11 C12] loaded: jarr_kind(data, elemof(stack.list.elements)) == 3 ==> len(arraylist.Seq(stack.list)) == jarr_len(data, elemof(stack.list.elements)) && (forall i :: 0 <= i && i < len(arraylist.Seq(stack.list)) ==> arraylist.Seq(stack.list)[i] == jarr_at(data, i, elemof(stack.list.elements)))
+//@   ensures [C12] null: jarr_kind(data, elemof(stack.list.elements)) == 2 ==> len(arraylist.Seq(stack.list)) == 0
+
+//@ func Stack.UnmarshalJSON
+//@   requires Inv(stack)
+//@   modifies stack.list.elements, elems(stack.list.elements)
+//@   ensures [C12 C17] Inv(stack) && (result == nil <==> jarr_kind(bytes, elemof(stack.list.elements)) >= 2)
+//@   ensures [C12] atomic: result != nil ==> arraylist.Seq(stack.list) == old(arraylist.Seq(stack.list))
+//@   ensures [C11 C12] loaded: jarr_kind(bytes, elemof(stack.list.elements)) == 3 ==> len(arraylist.Seq(stack.list)) == jarr_len(bytes, elemof(stack.list.elements)) && (forall i :: 0 <= i && i < len(arraylist.Seq(stack.list)) ==> arraylist.Seq(stack.list)[i] == jarr_at(bytes, i, elemof(stack.list.elements)))
+//@   ensures [C12] null: jarr_kind(bytes, elemof(stack.list.elements)) == 2 ==> len(arraylist.Seq(stack.list)) == 0
